@@ -30,12 +30,45 @@ TRIGGERS = ['<div style="overflow:auto; height:300px">', '{| style="overflow:aut
             '<div class="dablink">', '<div class="notice">', '<span style="font-size:200%">', '<div style="float:right">', '<center>', '<div align="center">']
 
 
+ATTR_NAMES = ["style", "class", "id", "colspan", "rowspan", "width", "height", "align", "name", "group", "lang", "dir", "title", "border",
+              "cellpadding", "bgcolor", "valign", "span", "start", "type", "value", "clear", "color", "size", "face", "nowrap"]
+ATTR_VALUES = ["x", "", "2", "0", "-1", "99999", "1e3", "50%", "100px", "3em", "red", "#fff", "a b", "a:b", "a:b:c", "x::y", ":", ";", ";;:",
+               "color:red", "color:red;", "width:50%; height:300px", "background:url(http://x.org/a.png)", "filter:progid:DXImageTransform.M(s=1)",
+               "overflow:auto; height:200px", "display:none", "position:absolute", "font-size:200%", "float:right", "text-align:center",
+               "border:1px solid #aaa", "width:900px", "COLOR:RED", "color : red ; ; width", "margin:0 auto", "a=b", "'", "<", ">", "&amp;", "é",
+               "noprint", "infobox", "navbox", "wikitable sortable", "region_list", "references-small", "rtl", "ltr", "center", "left", "top"]
+
+
+def attr_lexeme(rng: random.Random):
+    """an opening tag / table line with 1-3 attributes: names in any case, values quoted any way."""
+    attrs = []
+    for _ in range(rng.randint(1, 3)):
+        name = rng.choice(ATTR_NAMES)
+        c = rng.random()
+        if c < 0.2:
+            name = name.upper()
+        elif c < 0.35:
+            name = name.capitalize()
+        elif c < 0.45:
+            name = name[:3] + name[3:].capitalize()
+        v = rng.choice(ATTR_VALUES)
+        q = rng.choice(['"%s"', '"%s"', "'%s'", "%s"])
+        attrs.append(name + rng.choice(["=", " = ", "="]) + q % v)
+    a = " ".join(attrs)
+    form = rng.choice(["<div %s>", "<span %s>", "<table %s>", "<td %s>", "<tr %s>", "<th %s>", "<ref %s>", "<p %s>", "<ul %s>", "<li %s>", "<font %s>",
+                       "\n{| %s\n", "\n|- %s\n", "\n| %s |", "\n! %s |", "|| %s |", "<ol %s>", "<pre %s>", "<source %s>", "<gallery %s>", "<br %s/>",
+                       "<center %s>", "<blockquote %s>", "<h2 %s>", "<caption %s>", "<hr %s>", "<references %s/>"])
+    return form % a
+
+
 def fuzz_text(rng: random.Random, n=None):
     k = n or rng.randint(3, 40)
     parts = []
     for _ in range(k):
         x = rng.random()
-        if x < 0.12:
+        if x < 0.08:
+            parts.append(attr_lexeme(rng))
+        elif x < 0.16:
             parts.append(rng.choice(TRIGGERS))
         elif x < 0.2:
             parts.append("\n" + rng.choice(["*", "#", ":", ";", "{|", "|-", "|", "!", "|}", "==", " "]))
@@ -53,10 +86,12 @@ def trigger_doc(rng: random.Random):
     out = []
     for ln in lines:
         if ln.startswith("{|") and rng.random() < 0.7:
-            ln = rng.choice([t for t in TRIGGERS if t.startswith("{|")])
+            ln = rng.choice([t for t in TRIGGERS if t.startswith("{|")]) if rng.random() < 0.6 else "{| " + attr_lexeme(rng).split(" ", 1)[-1].rstrip(">|/\n ").replace("\n", "")
         if ln.startswith("| ") and rng.random() < 0.15:
             ln = rng.choice([t for t in TRIGGERS if t.startswith("| ")]) + ln[1:]
         out.append(ln)
+        if rng.random() < 0.05:
+            out.append(attr_lexeme(rng).strip("\n") + " attr wqa")
         if rng.random() < 0.08:
             t = rng.choice([t for t in TRIGGERS if t.startswith("<div") or t.startswith("<span") or t.startswith("<table")])
             tag = t[1:t.index(" ")] if " " in t else t[1:-1]
